@@ -25,7 +25,10 @@ async def read_stream(chunks, prefed=False):
             if sr.at_eof():
                 return
             try:
-                msgs.append(await sr.read())
+                m = await sr.read()
+                if m is None:        # the reader reports a clean end of the stream
+                    return
+                msgs.append(m)
             except asyncio.IncompleteReadError as exc:
                 # the reader was already waiting for the next header when EOF arrived exactly at a
                 # message boundary: that is the clean end of the stream, not a truncated message
